@@ -1,6 +1,9 @@
 // pluggable lane modules: add `mod lane_x;` + one line in `handle`
 use crate::sexp::Sexp;
 
-pub fn handle(cmd: &str, _args: &[Sexp]) -> Result<String, String> {
-    Err(format!("unknown command {cmd}"))
+pub fn handle(cmd: &str, args: &[Sexp]) -> Result<String, String> {
+    match cmd {
+        "peg" => crate::lane_peg::peg(args),
+        _ => Err(format!("unknown command {cmd}")),
+    }
 }
